@@ -66,6 +66,10 @@ pub enum TOp {
     /// size that is small, large or beyond anything addressable: every attempt fails at once; whatever
     /// the library does per attempt (counters, budgets, pools, caches) it does `times` times
     UnwrapPwCrafted { variant: u8, times: u32 },
+    /// seal this thread's local key twice in a row to a recipient key that parses but may be unusable
+    /// for key agreement (a small-order or mixed-order point): whatever the first attempt answers, the
+    /// second answers the same
+    SealKeyTwiceToOddRecipient { which: u8 },
 }
 
 impl TOp {
@@ -425,6 +429,34 @@ fn run_op(bk: Bk, keys: &mut Keys, shared: &Shared, st: &mut ThreadState, mail: 
                 res(&be.seal(Purp::Local, &keys.local, &msg(10), &Foot::Unit, aad, None, false), |_| "sealed-despite-rng-failure".into())
             } else {
                 "skip".into()
+            }
+        }
+        TOp::SealKeyTwiceToOddRecipient { which } => {
+            // edwards25519 points of order 1, 2, 4, 8 and a mixed-order point (a prime-order point plus one
+            // of them cannot be written down without arithmetic: the first eight are the classic list)
+            const ODD: [&str; 8] = [
+                "0100000000000000000000000000000000000000000000000000000000000000",
+                "ecffffffffffffffffffffffffffffffffffffffffffffffffffffffffffff7f",
+                "0000000000000000000000000000000000000000000000000000000000000000",
+                "0000000000000000000000000000000000000000000000000000000000000080",
+                "26e8958fc2b227b045c3f489f2ef98f0d5dfac05d3c63339b13802886d53fc05",
+                "26e8958fc2b227b045c3f489f2ef98f0d5dfac05d3c63339b13802886d53fc85",
+                "c7176a703d4dd84fba3c0b760d10670f2a2053fa2c39ccc64ec7fd7792ac037a",
+                "c7176a703d4dd84fba3c0b760d10670f2a2053fa2c39ccc64ec7fd7792ac03fa",
+            ];
+            if f == 2 || f == 4 {
+                let raw = hex::decode(ODD[*which as usize % 8]).unwrap_or_default();
+                match be.key_from_raw(Kind::PkePublic, &raw) {
+                    Out::Ok(to) => {
+                        let a = res(&be.seal_key(&keys.local, &to), |_| "sealed".into());
+                        let b2 = res(&be.seal_key(&keys.local, &to), |_| "sealed".into());
+                        if a == b2 { format!("ok:twice {a}") } else { format!("err:first attempt {a}, second attempt {b2}") }
+                    }
+                    Out::Err(_) => "ok:recipient refused at parse".into(),
+                    Out::Panic(p) => format!("panic:{p}"),
+                }
+            } else {
+                "ok:skip".into()
             }
         }
         TOp::UnwrapPwCrafted { variant, times } => {
